@@ -53,7 +53,7 @@ class Scenario:
                 self._note(worker("sb%d-%s" % (index, flavour), flavour,
                                   falsy=bool(params.get("falsy"))), True))())
         # submissions after start
-        outside_jobs = []
+        outside_jobs, early_jobs = [], []
         for index, (context, flavour, how, args_index) in enumerate(params.get("late", ())):
             ident = "l%d-%s-from-%s" % (index, flavour, context)
             desc = self._note(worker(ident, flavour, ARGS[args_index],
@@ -63,6 +63,8 @@ class Scenario:
             when = params.get("late_at", 0.0)
             if context == "outside":
                 outside_jobs.append((when, step))
+            elif context == "early":
+                early_jobs.append(step)
             elif params.get("race") and context in ("asyncio", "trio"):
                 # a coroutine payload is cancelled by the shutdown: it adopts in its cleanup
                 cleanup = ("sync-adopt", desc) if context == "asyncio" else \
@@ -127,9 +129,21 @@ class Scenario:
             else:
                 env.log("stop-returned")
 
+        def early_submitter():
+            # does not wait for the runtime to report running: the call lands wherever the
+            # schedule puts it - before the start, in the launch window, or afterwards
+            for op, desc in early_jobs:
+                if op == "adopt":
+                    kit.submit(desc)
+                else:
+                    env.log("service-create", id=desc["id"])
+                    keep.append(kit.service_class(desc)())
+
         env.spawn(driver, "driver")
         if outside_jobs:
             env.spawn(submitter, "submitter")
+        if early_jobs:
+            env.spawn(early_submitter, "early")
         try:
             runtime.accept()
         except Abort:
@@ -257,6 +271,8 @@ def scenario_params(tier):
         for args_index in variants:
             for late_at in (0.0, 1.25):
                 out.append({"late": [(context, flavour, how, args_index)], "late_at": late_at})
+    for flavour, how in itertools.product(FLAVOURS, ["adopt", "service"]):
+        out.append({"late": [("early", flavour, how, 2 if how == "adopt" else 0)]})
     # 2. queued payloads and services created before start: 0..2 per flavour
     counts = [(a, t, s) for a, t, s in itertools.product(range(3), repeat=3)]
     for a, t, s in counts:
